@@ -69,6 +69,31 @@ func main() {
 				os.Exit(1)
 			}
 			fmt.Println("no violation")
+		case "C10":
+			var rp eqReplay
+			a.LoadReplay(&rp)
+			w := u.ByName[rp.Wrapper]
+			var pa, pb *poolItem
+			for _, p := range buildPool(w) {
+				if p.label == rp.A && pa == nil {
+					pa = p
+				}
+				if p.label == rp.B && pb == nil {
+					pb = p
+				}
+			}
+			if pa == nil || pb == nil {
+				report.Internal("pool items not found")
+			}
+			eq, err := callEquals(pa.ptr, pb.ptr)
+			ha, _ := callHash(pa.ptr)
+			hb, _ := callHash(pb.ptr)
+			fmt.Printf("type %s\n a=%s\n b=%s\n Equals=%v err=%v structural=%v hash(a)=%s hash(b)=%s\n", rp.Wrapper, pa.v, pb.v, eq, err, schema.Equal(pa.v, pb.v), ha, hb)
+			if err != nil || eq != schema.Equal(pa.v, pb.v) || (eq && ha != hb) {
+				fmt.Println("FAIL")
+				os.Exit(1)
+			}
+			fmt.Println("no violation")
 		default:
 			report.Internal("unknown replay part %q", hdr.Part)
 		}
@@ -80,6 +105,8 @@ func main() {
 		partC01(a, rep, univName, u)
 	case "C03":
 		partC03(a, rep, univName, u)
+	case "C10":
+		partC10(a, rep, univName, u)
 	default:
 		report.Internal("unknown part %q", a.Part)
 	}
